@@ -32,6 +32,10 @@ for d in sorted(os.listdir(root)):
             classes = sorted(set(re.findall(r"class=(\S+) key=(.*)", r.stdout)))
             meta["final"] = {"applies": True, "check": pid, "exit": r.returncode, "caught": r.returncode == 1,
                              "violations": ["%s / %s" % (c, k[:140]) for c, k in classes][:6]}
+            for p2 in meta.get("also", []):
+                r2 = subprocess.run(["/verif/check", p2, "quick"], env=dict(os.environ, VERIF_REPO=wt, VERIF_OUT_DIR=out), stdout=subprocess.PIPE, stderr=subprocess.STDOUT, text=True)
+                c2 = sorted(set(re.findall(r"class=(\S+) key=(.*)", r2.stdout)))
+                meta["final"].setdefault("also", {})[p2] = {"exit": r2.returncode, "violations": ["%s / %s" % (c, k[:140]) for c, k in c2][:4]}
     finally:
         subprocess.run(["git", "-C", "/repo", "worktree", "remove", "--force", wt])
         shutil.rmtree(wt, ignore_errors=True); shutil.rmtree(out, ignore_errors=True)
@@ -42,4 +46,6 @@ with open(os.path.join(root, "MATRIX.md"), "w") as f:
     f.write("| seeded change | confirmed (suite passes, demo fails with / passes without) | caught by ./check <property> quick | first violation classes |\n|---|---|---|---|\n")
     for d, m in rows:
         fi = m.get("final", {})
-        f.write("| %s | %s | %s | %s |\n" % (d, "yes" if m.get("confirmed") else "no", "yes" if fi.get("caught") else "NO (exit %s)" % fi.get("exit"), "; ".join(fi.get("violations", [])[:2]).replace("|", "\\|")))
+        conf = "revert of fix %s" % m.get("commit") if m.get("kind") == "revert-of-fix" else ("yes" if m.get("confirmed") else "no")
+        also = "".join("; also %s: %s" % (p2, "caught" if a.get("exit") == 1 else "exit %s" % a.get("exit")) for p2, a in sorted(fi.get("also", {}).items()))
+        f.write("| %s (%s) | %s | %s%s | %s |\n" % (d, m.get("property"), conf, "yes" if fi.get("caught") else "NO (exit %s)" % fi.get("exit"), also, "; ".join(fi.get("violations", [])[:2]).replace("|", "\\|")))
